@@ -600,12 +600,37 @@ def r11_eoi_contained(c, facts, rule='C11.R11'):
         c.ok(R, {'parse': 'reports lexer errors, its own error on a valid cursor, or the error of parse_program', 'pushes': n})
 
 
+def r14_report_units(c, facts, rule='C11.R14'):
+    """ariadne indexes a source by character: the spans the CLI and the playground hand to it are character spans
+    (CharSpan::from converts the compiler's byte spans) - a byte offset shifts the label after the first non-ASCII
+    character and drops it when it runs past the end of the line table"""
+    import units as U
+    R = c.rule(rule, 'REPORT-UNITS: every span handed to the report printer (impl ariadne::Span) is measured in characters')
+    n = 0
+    for q, l in sorted(facts.by_qname.items()):
+        if not re.search(r' as ariadne::Span>::(start|end)$', q):
+            continue
+        fn = l[0]
+        if not fn.mir:
+            continue
+        n += 1
+        u = U.Units(fn).solve().unit.get(0)
+        inst = {'impl': q.split('::', 1)[1], 'unit': U.NAMES.get(u, u)}
+        if u == 'C':
+            c.ok(R, inst)
+        else:
+            c.bad(R, 'report-span-not-in-characters:%s' % q.split('::', 1)[1].split(' as ')[0].strip('<') + ':' + q.rsplit('::', 1)[1], '%s returns %s where the report printer expects a character index: the location printed for an error after a non-ASCII character is wrong, or missing' % (q, U.NAMES.get(u, 'a quantity of unknown unit')), **inst)
+    c.floor(R, 'ariadne::Span offsets examined', n, 4)
+
+
 def run(c, facts):
+    c.run(r14_report_units, facts)
     import lexrules
     c.run(lambda c: lexrules.no_skip(c, facts, 'C11.R12'))
     import c16 as _c16
     R13 = c.rule('C11.R13', 'RANGE-ENDS: the range published for a span is the conversion of its two ends against the whole text (shared with C16.R4)')
     c.shared(R13, _c16.r4_range_ends, 'C16.R4', facts)
+    c.shared(R13, _c16.r13_range_verbatim, 'C16.R13', facts)
     c.run(r11_eoi_contained, facts)
     c.run(r10_span_provenance, facts)
     import c16
